@@ -7,4 +7,8 @@ command -v java >/dev/null && test -f /opt/veriftools/tla/tla2tools.jar
 /venv/bin/python harness/build.py >/dev/null
 /venv/bin/python harness/build.py --guard >/dev/null
 mkdir -p evidence .work
+# numpy (offline wheelhouse) as a producer / consumer of the buffer protocol for C20; installed under .deps, never into /venv
+if [ ! -d .deps/numpy ]; then
+  /venv/bin/pip install -q --no-index --find-links /opt/veriftools/wheels --target .deps numpy >/dev/null
+fi
 echo "setup ok"
